@@ -199,7 +199,7 @@ class RpcNet(Engine):
                        'misbehaviour and transport fault; distinct = distinct trace-shape digest; non-trivial = a fault fired or >= 2 calls '
                        'with data flowing from one reply into a later request')
     quick_runs = 20000
-    assumptions_default = ['caller threads sharing one proxy are outside the property', 'amounts are integer satoshis in [0, 21e14]']
+    assumptions_default = ['caller threads using one proxy AT THE SAME TIME are outside the property (a proxy handed from one thread to another is exercised)', 'amounts are integer satoshis in [0, 21e14]']
 
     METHODS = ['getbalance', 'getreceivedbyaddress', 'listunspent', 'gettxout', 'getinfo', 'fundrawtransaction', 'sendtoaddress', 'sendmany',
                'getbestblockhash', 'getblockhash', 'getblock', 'getblockheader', 'getrawtransaction', 'getrawmempool', 'sendrawtransaction',
@@ -284,6 +284,8 @@ class RpcNet(Engine):
                         a['tx']['wit'] = [[gen.rhex(rng, 71), gen.rhex(rng, 33)]] + [[] for _ in range(nin - 1)]
                     a['resend'] = how
                 last_tx = a['tx']
+            if rng.random() < 0.12:
+                a['thread'] = True
             if srv_on and rng.random() < 0.25:
                 a['server'] = self.gen_server_fault(rng)
             if faults_on and rng.random() < 0.2:
@@ -424,6 +426,23 @@ class RpcNet(Engine):
         return RC.script_for(a['kind'], bytes.fromhex(a['payload'])).hex()
 
     # -- one call
+    @staticmethod
+    def _in_worker_thread(fn):
+        import threading
+        box = {}
+
+        def run():
+            try:
+                box['ret'] = fn()
+            except BaseException as e:      # StopRun included: re-raised in the caller
+                box['exc'] = e
+        t = threading.Thread(target=run, name='vf-worker')
+        t.start()
+        t.join()
+        if 'exc' in box:
+            raise box['exc']
+        return box.get('ret')
+
     def _call(self, pidx, a):
         ctx = self.ctx
         m = a['method']
@@ -437,7 +456,13 @@ class RpcNet(Engine):
             raise
         ret = exc = None
         try:
-            ret = invoke()
+            if a.get('thread'):
+                # the proxy was created by one thread and is now used by another (handed over, never
+                # shared: the worker is joined before anything else happens, so the order is unchanged)
+                ret = self._in_worker_thread(invoke)
+                ctx.fault('proxy-handed-to-another-thread')
+            else:
+                ret = invoke()
             if hasattr(ret, '__next__'):
                 ret = list(ret)
             outcome = 'return'
